@@ -217,6 +217,16 @@ fn variants(case: &Value, cx: &Contexts) -> Vec<(String, &'static str, String)> 
         "ast" | "walk" => {
             let body = join(&ts, " ");
             code_ctx(&mut out, &body, "");
+            // the blank between two tokens may be any white space or a comment: statements that begin with a keyword
+            // are also written with a tab, a line break and a comment as separators (in the `top' context)
+            const KEYWORDS: [&str; 12] = ["if", "else", "match", "loop", "while", "for", "return", "import", "mod", "struct", "mut", "in"];
+            if ts.iter().any(|t| KEYWORDS.contains(&t.as_str())) {
+                if let Some(c) = cx.code.iter().find(|c| c.name == "top") {
+                    for (tag, sep) in [("tab", "\t"), ("newline", "\n"), ("comment", "/**/")] {
+                        out.push((format!("top/{tag}"), "host", in_ctx(c, &join(&ts, sep))));
+                    }
+                }
+            }
             out.push(("value".into(), "value", body.clone()));
             if case["sort"] == "E" {
                 out.push(("type".into(), "type", body));
@@ -734,7 +744,7 @@ fn gen_cmd(args: &[String]) -> Value {
         e[0] += 1;
         e[1] += any_ok as u64;
         for ((label, api, _), o) in vars.iter().zip(outs) {
-            if *api == "host" && *o == Outcome::Program {
+            if *api == "host" && *o == Outcome::Program && !label.contains('/') {
                 let row = json!({"suite": "mut", "ctx": label, "ts": case["ts"], "form": form, "expect": "Program"});
                 let key = form.clone();
                 if !first.contains_key(&key) {
